@@ -53,6 +53,7 @@ func (f *fetcher) handleUpstream304(req *http.Request, key cache.CacheKey) (cach
 	}
 
 	slog.Debug("Successfully revalidated cache metadata", "url", req.URL, "key", key)
+	verifhook.At("fetch.304.renewed", key.Hex)
 	return f.cache.Get(key)
 }
 
